@@ -168,7 +168,10 @@ def check_history(case, ctx):
             r2 = r2 or c >= 2
             amp_ = removal_noise(degs[e[0]], kvs[e[0]], e[1], c) / (64 * 2.3e-16)
             noise = noise * max(1.0, amp_) + 64 * 2.3e-16 * amp_          # a removal also amplifies the noise the net already carries
-        if noise > 1e-6:
+        big_ = max(1.0, max(abs(c_) for q_ in orig["pts"] for c_ in q_))
+        if noise > 1e-6 or 16 * noise * big_ > 1e-3:
+            # (the second bound is absolute because the library's own removability test is: a chain mismatch above 10e-4 in model
+            # units - here pure rounding, amplified by the conditioning and the size of the coordinates - counts as "not removable")
             raise Skip("removal of a knot too close to the start of its supports is ill-conditioned")
         ctx.label("conditioning-widened-tolerance", noise > 1e-9)
         _do_remove(obj, params, nums, st_["form"])
@@ -203,11 +206,11 @@ def check_history(case, ctx):
             ctx.check(now == src_views, "copy-source-changed", "after a removal from a deep copy the source reports %d control points (%d before)" % (len(now[1]), len(src_views[1])))
         lat = shape.obj_lattice(obj, extras=[[e[1] for e in ledger if e[0] == k] for k in range(pdim)])
         shape.same_shape(ctx, R, obj, lat, "shape-changed", "after removing %r x%r via %s (removal #%d)" % (params, nums, st_["form"], nrem),
-                         rel=max(1e-9, noise))
+                         rel=max(1e-9, 16 * noise))
         if all(e[2] == 0 for e in ledger):
             full_restore = True
             ctx.check(all(shape.kv_close(x, y) for x, y in zip(build.kvs_of(obj), orig["kv"])), "knot-vector-not-restored", "all inserted knots removed but knot vectors are %r, originally %r" % (build.kvs_of(obj), orig["kv"]))
-            _orig_points_close(ctx, obj, orig["pts"], "control-points-not-restored", "insert then remove everything", noise)
+            _orig_points_close(ctx, obj, orig["pts"], "control-points-not-restored", "insert then remove everything", 16 * noise)
     ctx.nt(removed_any and r2, "removal-count>=2")
     ctx.nt(removed_any and onknot, "inserted-on-existing-knot")
     ctx.nt(removed_any and build.varied_weights(d), "rational-varied")
